@@ -14,12 +14,15 @@ type solverSpec struct {
 	Cmd  []string
 }
 
+var solverSeed int
+
 func solverList(timeoutS int) []solverSpec {
 	ts := itoa(timeoutS)
+	sd := itoa(solverSeed)
 	return []solverSpec{
-		{"z3-5.1.0", []string{"z3-new", "-in", "-T:" + ts}},
-		{"z3-4.8.12", []string{"z3", "-in", "-T:" + ts}},
-		{"cvc5-1.0", []string{"cvc5", "--lang=smt2", "--tlimit=" + ts + "000", "--produce-models"}},
+		{"z3-5.1.0", []string{"z3-new", "-in", "-T:" + ts, "smt.random_seed=" + sd, "sat.random_seed=" + sd}},
+		{"z3-4.8.12", []string{"z3", "-in", "-T:" + ts, "smt.random_seed=" + sd, "sat.random_seed=" + sd}},
+		{"cvc5-1.0", []string{"cvc5", "--lang=smt2", "--tlimit=" + ts + "000", "--produce-models", "--seed=" + sd}},
 	}
 }
 
